@@ -173,6 +173,11 @@ func recursionGraph(t *rapid.T) lib.Spec {
 // twice") firing below a required position. Anything else missing is not the recorded finding.
 func cutoffExplains(g *ref.Graph, doc *ref.Value) bool {
 	found, other := 0, 0
+	// absorbers: places above the current value that may be left out as a whole - an optional
+	// property, an item of an array without minItems, an alternative that is not the last one. Since
+	// 8df6aa6 a required property cut off below such a place makes that place go, so a missing
+	// required property there is no longer the recorded finding.
+	absorbers := 0
 	var walk func(n *ref.SNode, v *ref.Value, keysOpt bool, counts map[string]int, depth int)
 	// cutName: the builder yields nothing for this name - it has been entered twice already, or it
 	// is a pure reference / list all of whose members yield nothing
@@ -244,7 +249,13 @@ func cutoffExplains(g *ref.Graph, doc *ref.Value) bool {
 					(t.Kind == ref.SLit && v.Kind != ref.KObject && v.Kind != ref.KArray)
 				if fits {
 					counts[nm]++
-					walk(t, v, false, counts, depth+1)
+					if len(n.Names) > 1 && nm != n.Names[len(n.Names)-1] {
+						absorbers++
+						walk(t, v, false, counts, depth+1)
+						absorbers--
+					} else {
+						walk(t, v, false, counts, depth+1)
+					}
 					counts[nm]--
 					return
 				}
@@ -283,7 +294,7 @@ func cutoffExplains(g *ref.Graph, doc *ref.Value) bool {
 				}
 				if mv == nil {
 					if req {
-						if cut(pr.p.Val, counts) {
+						if cut(pr.p.Val, counts) && absorbers == 0 {
 							found++
 						} else {
 							other++
@@ -291,7 +302,13 @@ func cutoffExplains(g *ref.Graph, doc *ref.Value) bool {
 					}
 					continue
 				}
+				if !req {
+					absorbers++
+				}
 				walk(pr.p.Val, mv, pr.opt, counts, depth+1)
+				if !req {
+					absorbers--
+				}
 			}
 		case ref.SArr:
 			if v.Kind != ref.KArray {
@@ -310,7 +327,13 @@ func cutoffExplains(g *ref.Graph, doc *ref.Value) bool {
 					}
 					break
 				}
+				if n.Rule("minItems") == nil {
+					absorbers++
+				}
 				walk(it, v.Items[i], keysOpt, counts, depth+1)
+				if n.Rule("minItems") == nil {
+					absorbers--
+				}
 			}
 		}
 	}
